@@ -996,7 +996,10 @@ def _parse(
             elif operator == "whitespace":
                 mode = suffix.strip()
                 # Validate the selected mode
-                filter_whitespace(mode, "")
+                try:
+                    filter_whitespace(mode, "")
+                except Exception as e:
+                    reader.raise_parse_error(str(e))
                 reader.whitespace = mode
                 continue
             elif operator == "raw":
